@@ -5,7 +5,7 @@ use crate::{Ctx, Tier};
 use ohsl::{Cmplx, Polynomial, Vector};
 
 fn cx_maxbe(cx: &Ctx) -> f64 { cx.meta.iter().find(|kv| kv.0 == "maxbe").map(|kv| kv.1.parse::<f64>().unwrap()).unwrap_or(0.0) }
-fn cabs(z: Cmplx) -> f64 { (z.real * z.real + z.imag * z.imag).sqrt() }
+fn cabs(z: Cmplx) -> f64 { z.real.hypot(z.imag) }
 
 fn roots(t: &mut Toks, cx: &mut Ctx) -> String {
     let tag = t.next().to_string();
@@ -42,7 +42,13 @@ fn roots(t: &mut Toks, cx: &mut Ctx) -> String {
                     if be > cx_maxbe(cx) { cx.meta.retain(|kv| kv.0 != "maxbe"); cx.meta("maxbe", format!("{:e}", be)); }
                     // the closed quadratic formula is backward stable (no iteration, no deflation): hold it to 1e-12
                     let lim = if n <= 2 { 1e-12 } else { 1e-7 };
-                    if be > lim { cx.fail(format!("root {} = ({:e},{:e}) has backward error {:e} (|p(z)| = {:e}, max|a| = {:e})", k, zk.real, zk.imag, be, cabs(pv), amax)); }
+                    if !(be <= lim) { cx.fail(format!("root {} = ({:e},{:e}) has backward error {:e} (|p(z)| = {:e}, max|a| = {:e})", k, zk.real, zk.imag, be, cabs(pv), amax)); }
+                }
+                if !cx.fails.is_empty() && n == 3 && !refine && cardano_discriminant_lost(&coeffs) {
+                    // classify (independent recomputation of Cardano's intermediates in the harness): the chosen root of the resolvent
+                    // z^2 - d1 z + d0^3 must be the one of LARGER modulus, |base|^2 >= |d0|^3; a computed base far below that is
+                    // pure rounding noise: the discriminant cancelled completely, the closed form has no information left
+                    for f in cx.fails.iter_mut() { f.push_str(" [closed-form cubic: the discriminant cancelled (computed resolvent root below |d0|^1.5): Cardano's formula has no information left on this input]"); }
                 }
                 if !cx.fails.is_empty() && n > 3 {
                     // classify: does the reference copy of the pinned Laguerre + deflation algorithm fail on this input too?
@@ -59,7 +65,12 @@ fn roots(t: &mut Toks, cx: &mut Ctx) -> String {
                     for kr in &known {
                         let mut best = None; let mut bd = f64::INFINITY;
                         for k in 0..n { if !used[k] { let d = cabs(z[k] - *kr); if d < bd { bd = d; best = Some(k); } } }
-                        if let Some(k) = best { used[k] = true; if bd > 1e-6 * (1.0 + cabs(*kr)) { cx.fail(format!("no returned value within 1e-6 of the known root ({:e},{:e}) (nearest unused at distance {:e})", kr.real, kr.imag, bd)); } }
+                        // tolerance: 1e-6 (1 + |r|), widened by the conditioning of the root: a coefficient perturbation of relative size
+                        // 1e3 eps moves a simple root by about 1e3 eps sum|a_k||r|^k / |p'(r)| (closely spaced roots are ill-conditioned)
+                        let (mut dp, mut sc) = (Cmplx::new(0.0, 0.0), 0.0f64); let ar = cabs(*kr);
+                        for j in (1..=n).rev() { dp = dp * *kr + coeffs[j] * (j as f64); } for j in (0..=n).rev() { sc = sc * ar + cabs(coeffs[j]); }
+                        let tolr = 1e-6 * (1.0 + ar) + 1e3 * f64::EPSILON * sc / cabs(dp).max(1e-300);
+                        if let Some(k) = best { used[k] = true; if !(bd <= tolr) { cx.fail(format!("no returned value within {:e} of the known root ({:e},{:e}) (nearest unused at distance {:e})", tolr, kr.real, kr.imag, bd)); } }
                     }
                 }
             }
@@ -135,9 +146,48 @@ fn emit(out: &mut Vec<String>, tag: &str, kind: &str, refine: usize, coeffs: &[C
     out.push(format!("roots {} {} {} {} {}", tag, kind, refine, cs, wr_vec(known)));
 }
 
+/// Cardano's intermediates recomputed in the harness (same formulas, f64 complex arithmetic): has the discriminant
+/// information been lost to cancellation?  In exact arithmetic base = (d1 +/- sqrt(d1^2 - 4 d0^3)) / 2 with the
+/// non-cancelling sign is the root of larger modulus of z^2 - d1 z + d0^3, so |base|^2 >= |d0|^3.
+fn cardano_discriminant_lost(c: &[Cmplx]) -> bool {
+    // (real coefficients only; plain f64 arithmetic, nothing of the code under test is used)
+    if c.len() != 4 || c.iter().any(|z| z.imag != 0.0) { return false; }
+    let (a, b, cc, d) = (c[3].real, c[2].real, c[1].real, c[0].real);
+    let (a2, b2, c2, d2) = (a * a, b * b, cc * cc, d * d);
+    let dis = 18.0 * a * b * cc * d - 4.0 * b * b2 * d + b2 * c2 - 4.0 * a * c2 * cc - 27.0 * a2 * d2;
+    let d0 = b2 - 3.0 * a * cc;
+    let d1 = 2.0 * b2 * b - 9.0 * a * b * cc + 27.0 * a2 * d;
+    let w = -27.0 * a * a * dis;
+    // sq = sqrt(w): real for w >= 0 (then base = (d1 -/+ sq)/2 with the non-cancelling sign), purely imaginary otherwise
+    let nb = if w >= 0.0 { let sq = w.sqrt(); (if d1 * sq < 0.0 { d1 - sq } else { d1 + sq } / 2.0).abs() } else { d1.hypot((-w).sqrt()) / 2.0 };
+    let n0 = d0.abs();
+    nb.is_finite() && n0.is_finite() && n0 > 0.0 && nb * nb < 1e-6 * n0 * n0 * n0
+}
+
+/// coefficients (real) of a * (x - r1)(x - r2)(x - r3)..., computed in f64 from real roots and conjugate pairs
+fn real_poly_from(a: f64, reals: &[f64], pairs: &[(f64, f64)]) -> Vec<Cmplx> {
+    let mut p = vec![a];
+    for r in reals { let mut q = vec![0.0; p.len() + 1]; for (k, v) in p.iter().enumerate() { q[k + 1] += *v; q[k] -= *v * *r; } p = q; }
+    for (re, im) in pairs { let (s, t) = (-2.0 * re, re * re + im * im); let mut q = vec![0.0; p.len() + 2]; for (k, v) in p.iter().enumerate() { q[k + 2] += *v; q[k + 1] += *v * s; q[k] += *v * t; } p = q; }
+    p.into_iter().map(|x| Cmplx::new(x, 0.0)).collect()
+}
+
 pub fn gen(rng: &mut Rng, tier: Tier, out: &mut Vec<String>) {
     let reps = if tier == Tier::Quick { 3 } else { 60 };
     let z0 = Cmplx::new(0.0, 0.0);
+    // (g) CLUSTERED (not exactly multiple) roots: a cluster of spread 10^[-8, -0.3] around a point in [-3, 3], all real or a
+    // real root with a conjugate pair, general leading coefficient; coefficients rounded to f64 (so the roots are known only
+    // approximately: finiteness and backward error are demanded, no matching). Degree 2..6, mostly 3 (the closed forms cancel there)
+    for i in 0..(if tier == Tier::Quick { 400 } else { 12000 }) {
+        let deg = match i % 8 { 0 => 2, 1 => 4, 2 => 5, 3 => 6, _ => 3 };
+        let centre = (rng.unit() - 0.5) * 6.0; let sc = 10f64.powf(-8.0 + 7.7 * rng.unit());
+        let a = match rng.below(5) { 0 => 1.0, 1 => -1.0, 2 => 2.0, 3 => 0.5, _ => { let x = (rng.unit() - 0.5) * 6.0; if x == 0.0 { 1.0 } else { x } } };
+        let mut reals: Vec<f64> = Vec::new(); let mut pairs: Vec<(f64, f64)> = Vec::new();
+        let npairs = if rng.chance(50) { 0 } else { 1.min(deg / 2) };
+        for _ in 0..npairs { pairs.push((centre + (rng.unit() * 2.0 - 1.0) * sc, rng.unit() * sc)); }
+        while reals.len() + 2 * pairs.len() < deg { let e = if reals.is_empty() { 0.0 } else if rng.chance(15) { 0.0 } else { (rng.unit() * 2.0 - 1.0) * sc }; reals.push(centre + e); }
+        emit(out, "f", "clustered", i % 2, &real_poly_from(a, &reals, &pairs), &[]);
+    }
     for deg in 1..=12usize { for rep in 0..reps { for refine in 0..2usize {
         // (a) random coefficients, mixed sign / scale (ratio up to 1e6)
         let mut c: Vec<Cmplx> = (0..=deg).map(|_| Cmplx::new(rng.f_general(3.0), 0.0)).collect();
